@@ -27,6 +27,7 @@ def main(argv):
     prop = argv[0].upper()
     tier = os.environ.get("VERIF_TIER", "quick")
     replay = None
+    search = 0
     i = 1
     while i < len(argv):
         if argv[i] == "--tier":
@@ -35,9 +36,12 @@ def main(argv):
         elif argv[i] == "--replay":
             replay = argv[i + 1]
             i += 2
+        elif argv[i] == "--search":
+            search = int(argv[i + 1])
+            i += 2
         else:
             raise SystemExit("unknown argument %r" % argv[i])
-    return runner.check_main(prop, tier, replay)
+    return runner.check_main(prop, tier, replay, search)
 
 
 if __name__ == "__main__":
